@@ -70,6 +70,9 @@ def dec(c):
         elif o == 3: ops.append("insert w%d %s %s" % (w, href(), bundle()))
         elif o == 4: ops.append("remove w%d %s %s" % (w, href(), types()))
         elif o == 5: ops.append("exchange w%d %s %s %s" % (w, href(), types(), bundle()))
+        elif o in (24, 25):
+            hh = href(); kind = c[p]; p += 1
+            ops.append("%s<derived %d> w%d %s %s %s" % ("remove" if o == 24 else "exchange", kind, w, hh, types(), bundle() if o == 25 else ""))
         elif o == 6: ops.append("despawn w%d %s" % (w, href()))
         elif o == 7: ops.append("take_drop w%d %s" % (w, href()))
         elif o == 8: ops.append("take_into w%d %s" % (w, href()))
